@@ -12,12 +12,25 @@ CLASSES = {
 TREE = "losers_"
 
 
+_REF_INITS = {}     # decl id of a local reference (auto& node = losers_[pos]) -> its initialiser, per function run
+
+
 def node_index(n):
-    """index expression i if n is this->losers_[i]"""
+    """index expression i if n is this->losers_[i] (also through a local reference bound to it)"""
     p = match.index_parts(n)
     if p and match.this_field(p[0]) == TREE:
         return p[1]
+    d = ref_of(n)
+    if d is not None and d in _REF_INITS:
+        return node_index(_REF_INITS[d])
     return None
+
+
+def bind_reference_locals(fn):
+    _REF_INITS.clear()
+    for x in fn.nodes():
+        if x["k"] == "VarDecl" and x.get("isref") and kids(x) and kids(x)[0] is not None:
+            _REF_INITS[x["did"]] = kids(x)[0]
 
 
 def node_field(n):
@@ -35,6 +48,7 @@ def node_field(n):
 # ----------------------------------------------------------------------------
 
 def check_replay(ck, fn, info, stable):
+    bind_reference_locals(fn)
     body = fn.body
     loops = [s for s in kids(body) if s["k"] in ("WhileStmt", "ForStmt")]
     ck.require(len(loops) == 1, "%s: expected one replay loop in delete_min_insert" % fn.loc)
@@ -128,12 +142,20 @@ def check_replay(ck, fn, info, stable):
 
     def atomize(n, run):
         pt = match.ptr_truth(n)
+        neg = True
+        if pt is None and pointer:
+            bn = match.binop(n, ("!=", "=="))
+            if bn:
+                for x_, y_ in ((bn[1], bn[2]), (bn[2], bn[1])):
+                    if strip_casts(y_)["k"] in ("NullPtr", "CXXNullPtrLiteralExpr", "GNUNullExpr"):
+                        pt = x_
+                        neg = bn[0] == "!="          # p != nullptr  <=>  not exhausted
         if pt is not None:
             if ref_of(pt) == keyvar and pointer:
-                return ("S", True)
+                return ("S", neg)
             f = match.field_of(pt)
             if f and f[1] == "keyp" and is_node(f[0]):
-                return ("L", True)
+                return ("L", neg)
             return None
         if supvar is not None and n["k"] == "DeclRefExpr" and n["ref"]["id"] == supvar:
             return ("S", False)
@@ -184,12 +206,34 @@ def check_replay(ck, fn, info, stable):
     for v, lf in dtable.table(leaves, consistent, atoms):
         rows += 1
         swapped = set()
+        saved = {}          # temporary -> (node field) of a three-step exchange in progress
+        half = {}           # node field written from the challenger while a temporary holds the old node value
         for ev in lf["events"]:
+            if ev[0] == "decl":
+                v_ = ev[1]
+                if kids(v_) and kids(v_)[0] is not None:
+                    nf_ = node_field(kids(v_)[0])
+                    if nf_ and ref_of(nf_[0]) == posv:
+                        saved[v_["did"]] = nf_[1]            # T tmp = losers_[pos].f;
+                continue
             if ev[0] != "expr":
                 raise dtable.Undecidable("%s: unexpected %s in replay loop body" % (fn.loc, ev[0]))
             e = ev[1]
             if match.halving(e, posv):
                 continue
+            asg = match.binop(e, ("=",))
+            if asg:
+                nf_ = node_field(asg[1])
+                # losers_[pos].f = challenger_f;   (second step)
+                if nf_ and ref_of(nf_[0]) == posv and chal.get(nf_[1]) == ref_of(asg[2]) and nf_[1] in saved.values():
+                    half[nf_[1]] = True
+                    continue
+                # challenger_f = tmp;              (third step)
+                if ref_of(asg[1]) in chal.values() and ref_of(asg[2]) in saved:
+                    fld = saved[ref_of(asg[2])]
+                    if chal.get(fld) == ref_of(asg[1]) and half.get(fld):
+                        swapped.add(fld)
+                        continue
             c = match.call_named(e, ("swap",))
             if c and len(kids(c)) == 2:
                 a0, a1 = kids(c)
@@ -291,15 +335,31 @@ def check_init(ck, fn, guarded, pointer):
     ck.require(sorted(child.values()) == ["left", "right"],
                "%s: could not identify the two recursive sub-tournaments" % fn.loc)
 
+    cur_run = [None]      # the decision-table run whose locals may select the winner / loser index by a ternary
+
+    def idx_role(i, depth=0):
+        d = ref_of(i)
+        if d in child:
+            return child[d]
+        if d == root:
+            return "root"
+        run = cur_run[0]
+        if run is not None and d is not None and isinstance(run.env.get(d), dict) and depth < 4:
+            init = strip_casts(run.env[d])
+            if init["k"] == "ConditionalOperator":
+                c, a, b = kids(init)
+                try:
+                    return idx_role(a if run.truth(c) else b, depth + 1)
+                except Exception:
+                    return None
+            return idx_role(init, depth + 1)
+        return None
+
     def node_role(e):
         i = node_index(e)
         if i is None:
             return None
-        if ref_of(i) in child:
-            return child[ref_of(i)]
-        if ref_of(i) == root:
-            return "root"
-        return None
+        return idx_role(i)
 
     def key_role(e):
         if pointer:
@@ -351,6 +411,7 @@ def check_init(ck, fn, guarded, pointer):
     for v, lf in dtable.table(leaves, consistent, atoms):
         rows += 1
         stored = None
+        cur_run[0] = lf["run"]
         for ev in lf["events"]:
             if ev[0] == "decl":
                 continue
@@ -364,7 +425,7 @@ def check_init(ck, fn, guarded, pointer):
             raise dtable.Undecidable("%s: effect not understood in init_winner" % fn.loc)
         ck.require(lf["stop"][0] == "return", "%s: init_winner path without return" % fn.loc)
         rv = lf["stop"][1][0]
-        winner = child.get(ref_of(rv))
+        winner = idx_role(rv) if idx_role(rv) in ("left", "right") else None
         sig = "row:" + dtable.fmt_val(v)
         if winner is None or stored is None or winner == stored:
             ck.violation("INIT-TABLE", fn.qname, sig, "game node does not store the loser and promote the other player (stored %s, promoted %s)"
